@@ -295,12 +295,20 @@ class Summariser:
             if full and not new_defaulted_params(self.model, fn):
                 s = self.summary(fn)
             else:
-                s = _Builder(self.model, fn, self, specialise=not full).run()
+                building = self.__dict__.setdefault("_building", [])
+                building.append(fn.qualname)
+                try:
+                    s = _Builder(self.model, fn, self, specialise=not full).run()
+                finally:
+                    building.pop()
             self.cache[key] = s
         return s
 
     def inlinable(self, fn: FunctionInfo | None, tail: bool = False) -> bool:
         if fn is None or fn.qualname in KNOWN_FUNCTIONS:
+            return False
+        if fn.qualname in self.__dict__.get("_building", ()):
+            # a (directly or mutually) recursive helper: its summary is the one being built
             return False
         if fn.is_property:
             return False
@@ -1062,6 +1070,41 @@ class _Builder:
             return m is not None and not m.is_property and not getattr(m, "is_cached_property", False)
         return False
 
+    def _never_none_call(self, t) -> bool:
+        """A constructor call, or a call of an alternative constructor (a classmethod all of whose returns are
+        ``cls(...)`` and whose body ends in return / raise): the result is an object, never None."""
+        if op(t) != "call":
+            return False
+        f = t[1]
+        if op(f) == "cls":
+            return True
+        if op(f) == "attr" and op(f[1]) == "cls":
+            ci = self.model.classes.get(f[1][1])
+            m = self.model.find_method(ci, f[2]) if ci is not None else None
+            if m is None or not getattr(m, "is_classmethod", False) or not m.params:
+                return False
+            cache = self.model.__dict__.setdefault("_never_none", {})
+            if m.qualname in cache:
+                return cache[m.qualname]
+            clsname = m.params[0].name
+            short = f[1][1].rsplit(".", 1)[-1]
+            ok = True
+            stack = list(m.node.body)
+            while stack and ok:
+                n = stack.pop()
+                if isinstance(n, (ast.FunctionDef, ast.AsyncFunctionDef, ast.Lambda, ast.ClassDef)):
+                    continue
+                if isinstance(n, ast.Return):
+                    v = n.value
+                    ok = isinstance(v, ast.Call) and isinstance(v.func, ast.Name) and v.func.id in (clsname, short)
+                    continue
+                stack.extend(ast.iter_child_nodes(n))
+            last = m.node.body[-1] if m.node.body else None
+            ok = ok and isinstance(last, (ast.Return, ast.Raise))
+            cache[m.qualname] = ok
+            return ok
+        return False
+
     def _lift_ifexp(self, value):
         """A conditional expression nested in displays / call arguments / operators of ``value`` is lifted to
         the top:  f({a if c else b})  ==  f({a}) if c else f({b}).  Not through lambdas, comprehensions,
@@ -1455,6 +1498,9 @@ class _Builder:
             return then_fn([p]) if not pol else else_fn([p])
         if op(test) == "cmp" and test[1] in ("is", "==") and any(is_const(x, None) for x in (test[2], test[3])) and any(self._is_callable_object(x) for x in (test[2], test[3])):
             # nor is a function, a class, a lambda, a partial application or a bound method of self
+            return then_fn([p]) if not pol else else_fn([p])
+        if op(test) == "cmp" and test[1] in ("is", "==") and any(is_const(x, None) for x in (test[2], test[3])) and any(self._never_none_call(x) for x in (test[2], test[3])):
+            # nor is what a constructor / alternative constructor returns
             return then_fn([p]) if not pol else else_fn([p])
         if _pure_test(test, self.fn):
             # the same value-level test was already decided on this path: only the consistent arm is feasible
